@@ -43,7 +43,11 @@ class S4UCheck(dst.Check):
 
     def model(self, plan, res):
         if '_model' not in res:
-            m = refsync.Model(plan, self.recs(res))
+            if plan.get('opts', {}).get('mode') == 'walk':
+                import refwalk
+                m = refwalk.WalkModel(plan, self.recs(res))
+            else:
+                m = refsync.Model(plan, self.recs(res))
             m.run()
             res['_model'] = m
         return res['_model']
@@ -91,6 +95,28 @@ class S4UCheck(dst.Check):
         if not any(c == 'crash' for c, _ in v):
             v += self.final_state_violations(plan, res)
         return v
+
+    def sleep_violations(self, plan, res, suspended=()):
+        """C03 cross-invariant checked in every campaign: an undisturbed sleep_for(d) returns exactly d later"""
+        v = []
+        calls = {}
+        for r in self.recs(res):
+            if r.kind not in ('sleep', 'sleep_until'):
+                continue
+            key = (r.aid, r.inc, r.idx)
+            if r.t == 'C':
+                calls[key] = r
+            elif r.t == 'R' and key in calls and not r.kv.get('exc') and r.aid not in suspended:
+                c = calls[key]
+                d = float(c.args[0])
+                if r.kind == 'sleep':
+                    want = c.clock + (max(d, 1e-9) if d > 0 else 0.0)
+                else:
+                    want = max(d, c.clock)
+                if not refsync.close(r.clock, want):
+                    v.append(('sleep_date', '%s(%r) by %s called at %r returned at %r instead of %r (seq %d)' %
+                              (r.kind, d, r.aid, c.clock, r.clock, want, r.seq)))
+        return v[:3]
 
     def signature(self, plan, res):
         return gen.signature_of_calls(self.recs(res))
